@@ -53,7 +53,7 @@ def plan(tier, seed):
     specs.extend(big.specs(tier, seed, 'C04'))
     meta = dict(
         rule=RULE,
-        require=['big_histories', 'cofactor_results', 'rename_results', 'compose_results',
+        require=['big_histories', 'huge_histories', 'cofactor_results', 'rename_results', 'compose_results',
                  'vector_results', 'steps', 'function_let_results',
                  'operand_unchanged_checks'],
         assumptions=['truth-table model in vf/oracle.py',
